@@ -49,6 +49,7 @@ def build_c(run):
     K.verify(run, ID, tu, CR.GetParams)
     run.assume("struct gsm_time passed to rfch_* is consistent with its fn member (established by C19: gsm_fn2gsmtime / l1s_time_inc)")
     run.assume("rfch_get_params: l1s.dedicated.h1.{hsn,maio} <= 63 and 1 <= n <= 64 when hopping (the statement's quantifier; set from L1CTL_DM_EST_REQ)")
+    K.finish(run)
 
 
 build = build_c
